@@ -85,7 +85,7 @@ func (decWorld) Gen(prop, tier string, idx int, r *Rng) *Trace {
 		cj, _ := json.Marshal(cfg)
 		return &Trace{World: "W-DEC", Cfg: cj, Ops: ops}
 	}
-	fams := []string{"p1", "p2", "p1", "p2", "xp2", "xp1"}
+	fams := []string{"p1", "p2", "p1", "p2", "xp2", "xp1", "xw"}
 	nClaims := r.Range(1, 3)
 	for i := 0; i < nClaims; i++ {
 		pf := fams[r.Intn(len(fams))]
@@ -563,6 +563,26 @@ var decEntries = []decEntry{
 		c := newXP2(xp2Name).(*XP2Claims)
 		err := c.UnmarshalJSON(b)
 		return func() { postClaims(c) }, err
+	}},
+	{"XWClaims.UnmarshalCBOR(PopulateStructFromCBOR)", func(b []byte, st *decState) (func(), error) {
+		c := XWProfile{}.GetClaims().(*XWClaims)
+		err := c.UnmarshalCBOR(b)
+		return func() { postClaims(c) }, err
+	}},
+	{"XWClaims.UnmarshalJSON(PopulateStructFromJSON)", func(b []byte, st *decState) (func(), error) {
+		c := XWProfile{}.GetClaims().(*XWClaims)
+		err := c.UnmarshalJSON(b)
+		return func() { postClaims(c) }, err
+	}},
+	{"SwComponents[*XSwComponent].UnmarshalCBOR", func(b []byte, st *decState) (func(), error) {
+		c := &psatoken.SwComponents[*XSwComponent]{}
+		err := c.UnmarshalCBOR(b)
+		return func() {
+			_ = c.Validate()
+			_, _ = c.Values()
+			_, _ = c.MarshalCBOR()
+			_, _ = c.MarshalJSON()
+		}, err
 	}},
 	{"SwComponents.UnmarshalCBOR", func(b []byte, st *decState) (func(), error) {
 		c := &psatoken.SwComponents[*psatoken.SwComponent]{}
